@@ -107,7 +107,17 @@ class Intervals:
         x = b
         while True:
             if len(x.preds) == 1:
-                p = x.preds[0]; t = p.term
+                self._edge_cons(x.preds[0], x, add)
+            if x.id not in idom or idom[x.id] == x.id: break
+            x = fn.bmap[idom[x.id]]
+        return self._cons_close(b, cons, add)
+
+    def _edge_cons(self, p, x, add):
+        """what taking the edge p -> x says about the values its branch tests"""
+        fn = self.fn
+        if True:
+            if True:
+                t = p.term
                 if t.op == "br" and len(t.ops) == 3 and t.ops[1]["v"] != t.ops[2]["v"] and t.ops[0]["k"] == "inst":
                     ci = fn.imap[t.ops[0]["v"]]; taken = (x.id == t.ops[2]["v"])
                     rhs_const = None
@@ -144,8 +154,9 @@ class Intervals:
                         if x.id != t["default"] and len(mine) == 1: add(k, lo=mine[0], hi=mine[0])
                         elif x.id == t["default"] and not mine:
                             for c in t["cases"]: add(k, ne=int(c["v"]))
-            if x.id not in idom or idom[x.id] == x.id: break
-            x = fn.bmap[idom[x.id]]
+
+    def _cons_close(self, b, cons, add):
+        fn = self.fn
         # a phi whose constant incoming values are all excluded here can only have come in by its remaining edge: what held on
         # that edge's source holds here too (e.g. `need` = 1 / 2 / tag - 246 and need is neither 1 nor 2  =>  the path set tag >= 249)
         self._ref[b.id] = cons                       # (recursion guard: partial result)
@@ -188,6 +199,25 @@ class Intervals:
             if not grew: break
         self._ref[b.id] = cons
         return cons
+
+    def ival_on_edge(self, o, p, b):
+        """the value o as known when control leaves block p for block b (what dominates p, and the branch of p itself)"""
+        base = self.constraints_at(p)
+        cons = {k: [c[0], c[1], set(c[2])] for k, c in base.items()}
+        def add(k, lo=None, hi=None, ne=None):
+            c = cons.setdefault(k, [-INF, INF, set()])
+            if lo is not None: c[0] = max(c[0], lo)
+            if hi is not None: c[1] = min(c[1], hi)
+            if ne is not None: c[2].add(ne)
+        self._edge_cons(p, b, add)
+        lo, hi = self.ival(o)
+        k = self.key_of(o)
+        c = cons.get(k) if k is not None else None
+        if c is None: return (lo, hi)
+        lo = max(lo, c[0]); hi = min(hi, c[1])
+        while lo in c[2]: lo += 1
+        while hi in c[2]: hi -= 1
+        return (lo, hi)
 
     def ival_at(self, o, b):
         lo, hi = self.ival(o)
